@@ -12,7 +12,7 @@ from harness.oracle.series import family
 
 MODULE = 'Ndt.Props.C17'
 THEOREMS = ['Ndt.num_coefficients', 'Ndt.root_pow_sum', 'Ndt.dft_aliasing', 'Ndt.extrapolate_removes_two_terms', 'Ndt.taylorLoop_spec',
-            'Ndt.failed_iff_cap']
+            'Ndt.failed_iff_cap', 'Ndt.radStep_converged_iff', 'Ndt.radStep_bracket_mono', 'Ndt.radRun_after_bracket']
 EPS = 2.0 ** -52
 K_EST, C_FLOOR = 1000.0, 100.0       # calibrated: worst err/(est + 100 eps fmax/R^k) = 33 over 1100 runs with the final circle inside the disc
 
@@ -94,6 +94,7 @@ def run(ctx):
     cc = getattr(fb.Taylor, '_check_convergence', None)
     worst = 0.0
     loop_jobs = []
+    rad_jobs = []
     for it in range(ctx.budget(200, 2000) * (2 if (ctx.broken or ctx.mismatches) else 1)):
         name, f, series, dist = family(rng)
         z0 = complex(rng.uniform(0, 1), rng.uniform(0, 1)) if rng.random() < 0.5 else rng.uniform(0, 1)
@@ -101,16 +102,43 @@ def run(ctx):
         default_r = rng.random() < 0.4
         r = 0.0059 if default_r else 10 ** rng.uniform(-5, 0)
         ratio, ne = rng.uniform(1.2, 3), rng.randint(1, 5)
+        if not default_r and rng.random() < 0.35:
+            # an initial radius already close to the optimal one with few extrapolation circles: the search ends after very few
+            # circles and the result rests on the short-sequence fallback of the estimate
+            r, ne = rng.choice([0.3, 0.5, 0.75, 1.0]), rng.choice([1, 1, 2])
+            ratio = rng.choice([1.6, 2.0, 3.0, ratio])
         kw = dict(n=n, r=r, step_ratio=ratio, num_extrap=ne, full_output=True)
         if default_r and rng.random() < 0.5:
             kw = dict(n=n, full_output=True)
         rep = dict(f=name, z0=str(z0), **{k: v for k, v in kw.items() if k != 'full_output'})
         ctx.tried(tuple(sorted((k, str(v)) for k, v in rep.items())))
         flags = []
+        state_after = []
+        rad_inputs = []          # per call of _check_convergence: the outputs of _check_fft / _poor_convergence, None if not consulted
+        cf, pc = getattr(fb, '_check_fft', None), getattr(fb, '_poor_convergence', None)
+        if cf is not None and pc is not None:
+            def cf_spy(m1, m2, check_degenerate=True, cf=cf):
+                res = cf(m1, m2, check_degenerate)
+                rad_inputs.append([bool(res[0]), bool(res[1]), False])
+                return res
+
+            def pc_spy(*a, pc=pc, **k):
+                res = pc(*a, **k)
+                if rad_inputs:
+                    rad_inputs[-1][2] = bool(res)
+                return res
+            fb._check_fft, fb._poor_convergence = cf_spy, pc_spy
         if cc is not None:
             def spy(self, i, z0_, r_, m_, bn_, cc=cc, flags=flags):
+                n_before = len(rad_inputs)
                 res = cc(self, i, z0_, r_, m_, bn_)
                 flags.append(bool(res[0]))
+                if len(rad_inputs) == n_before:
+                    rad_inputs.append([False, False, False])       # _check_fft was not consulted in this call (degenerate / converged)
+                state_after.clear()
+                # private bookkeeping attributes are optional attachment points: absent ones are reported as None and not compared
+                state_after.extend([getattr(self, '_direction_changes', None), getattr(self, '_degenerate', None),
+                                    getattr(self, '_num_changes', None)])
                 return res
             fb.Taylor._check_convergence = spy
         try:
@@ -123,6 +151,8 @@ def run(ctx):
         finally:
             if cc is not None:
                 fb.Taylor._check_convergence = cc
+            if cf is not None and pc is not None:
+                fb._check_fft, fb._poor_convergence = cf, pc
         m = len(c)
         if m < n + 1:
             ctx.violation('taylor returned fewer than n + 1 coefficients', got=m, **rep)
@@ -130,6 +160,8 @@ def run(ctx):
         # the iteration loop against the model
         if cc is not None:
             loop_jobs.append((list(flags), bool(info.failed)))
+            if cf is not None and pc is not None and len(rad_inputs) == len(flags):
+                rad_jobs.append((int(kw.get('num_extrap', 3)), [list(t) for t in rad_inputs], list(flags), list(state_after), rep))
             if bool(info.failed) != (not any(flags)) or (info.failed and len(flags) != 30):
                 ctx.violation('failed is not set exactly when the iteration cap was reached', failed=bool(info.failed), iterations_run=len(flags),
                               converged_flags=str(flags[-5:]), **rep)
@@ -176,6 +208,24 @@ def run(ctx):
             leng['exact'] += 1
         else:
             ctx.mismatch('taylor.loop', fl, [failed, len(fl)], w)
+    # ---------------- engine `taylor.radius`: the bookkeeping of the radius search against the state machine `radRun` -------------------------
+    reng = ctx.engine('taylor.radius')
+    if rad_jobs:
+        routs = run_driver(['radrun %d %s' % (ne_, ' '.join('%d %d %d' % (int(a), int(b), int(c)) for a, b, c in ins)) for ne_, ins, _f, _s, _r in rad_jobs], 'C17r')
+        for (ne_, ins, fl, st_after, rep_), line in zip(rad_jobs, routs):
+            reng['cases'] += 1
+            w = line.split()
+            impl = [len(fl), int(any(fl))] + [None if v is None else int(v) for v in st_after]
+            model = [int(w[0]), int(w[1]), int(w[2]), int(w[3]), int(w[4])]
+            model = [mv if iv is not None else None for mv, iv in zip(model, impl)]
+            ctx.count('taylor.radius', 'converged' if any(fl) else 'cap reached')
+            if impl == model:
+                reng['exact'] += 1
+            else:
+                ctx.mismatch('taylor.radius', dict(rep_, num_extrap_used=ne_, inputs=ins[:40]), impl, model,
+                             '(iterations, converged, direction changes, degenerate, num_changes)')
+    else:
+        ctx.notes.append('engine taylor.radius skipped: attachment points _check_fft / _poor_convergence / _check_convergence missing')
     ctx.notes.append('worst err / (1000 est + 100 eps fmax / R^k) with the final circle inside the disc of analyticity: %.3g' % worst)
     ctx.assumptions.append('FFT rounding, the success of the heuristic radius search and the accuracy-vs-estimate claim are explored, not proved; '
                            'numpy.fft.fft is identified with the exact DFT in dft_aliasing')
